@@ -49,58 +49,111 @@ Qed.
 Definition tracked_id (s : xstate) (id : N) : bool :=
   match afind (e_hash (obj s id)) (x_table s) with Some id' => N.eqb id' id | None => false end.
 
-Lemma dispatch_same fuel s :
-  let s' := dispatch fuel s in
-  x_table s' = x_table s /\ x_objs s' = x_objs s /\ x_next s' = x_next s /\ x_timers s' = x_timers s /\
-  x_workers s' = x_workers s /\ (forall id, pend s' id <= pend s id)%nat /\
-  (forall id, tracked_id s id = true -> pend s' id = pend s id) /\
-  (length (x_inflight s') <= Nat.max (length (x_inflight s)) (x_workers s))%nat.
-Proof.
-  revert s. induction fuel as [|f IH]; intros s; cbn zeta; cbn [dispatch]; [repeat split; auto; try lia|].
-  destruct (x_queue s) as [|id rest] eqn:Eq; [repeat split; auto; try lia|].
-  destruct (Nat.ltb_spec (length (x_inflight s)) (x_workers s)); [|repeat split; auto; lia].
-  assert (Hc : forall id', cnt id' (id :: rest) = ((if N.eq_dec id id' then 1 else 0) + cnt id' rest)%nat)
-    by (intros id'; unfold cnt; simpl; destruct (N.eq_dec id id'); reflexivity).
-  fold (tracked_id s id). destruct (tracked_id s id) eqn:Etr.
-  - match goal with |- context [dispatch f ?t] => destruct (IH t) as [A [B [C [D [E [F [F2 G]]]]]]]; cbn zeta in * end.
-    cbn [x_table x_objs x_next x_timers x_workers x_queue x_inflight] in *.
-    assert (Hp : forall id', pend {| x_table := x_table s; x_objs := x_objs s; x_queue := rest; x_inflight := x_inflight s ++ [id];
-                                     x_timers := x_timers s; x_next := x_next s; x_workers := x_workers s;
-                                     x_probes := x_probes s ++ [e_hash (obj s id)] |} id' = pend s id').
-    { intros id'. unfold pend. cbn [x_queue x_inflight x_timers]. rewrite Eq, cnt_snoc, Hc. destruct (N.eq_dec id id'); lia. }
-    repeat split; auto.
-    + intros id'. rewrite <- Hp. apply F.
-    + intros id' Ht. rewrite <- Hp. apply F2. exact Ht.
-    + rewrite app_length in G. simpl in G. lia.
-  - match goal with |- context [dispatch f ?t] => destruct (IH t) as [A [B [C [D [E [F [F2 G]]]]]]]; cbn zeta in * end.
-    cbn [x_table x_objs x_next x_timers x_workers x_queue x_inflight] in *.
-    assert (Hp : forall id', pend {| x_table := x_table s; x_objs := x_objs s; x_queue := rest; x_inflight := x_inflight s;
-                                     x_timers := x_timers s; x_next := x_next s; x_workers := x_workers s; x_probes := x_probes s |} id'
-                             = (pend s id' - (if N.eq_dec id id' then 1 else 0))%nat).
-    { intros id'. unfold pend. cbn [x_queue x_inflight x_timers]. rewrite Eq, Hc. destruct (N.eq_dec id id'); lia. }
-    repeat split; auto.
-    + intros id'. specialize (F id'). rewrite Hp in F. lia.
-    + intros id' Ht. rewrite F2 by exact Ht. rewrite Hp. destruct (N.eq_dec id id') as [<-|]; [congruence|lia].
-Qed.
-
 Lemma obj_same s s' id : x_objs s' = x_objs s -> obj s' id = obj s id.
 Proof. unfold obj. now intros ->. Qed.
 
-Lemma inv_settle s : Inv s -> Inv (settle s).
+Lemma cnt_cons id x l : cnt id (x :: l) = ((if N.eq_dec x id then 1 else 0) + cnt id l)%nat.
+Proof. unfold cnt. simpl. destruct (N.eq_dec x id); reflexivity. Qed.
+
+(* a worker takes the head of the queue and starts its probe *)
+Lemma inv_start s id rest : Inv s -> x_queue s = id :: rest ->
+  Inv {| x_table := x_table s; x_objs := x_objs s; x_queue := rest; x_inflight := x_inflight s ++ [id];
+         x_timers := x_timers s; x_next := x_next s; x_workers := x_workers s;
+         x_probes := x_probes s ++ [e_hash (obj s id)]; x_info := x_info s |}.
 Proof.
-  intros I. unfold settle.
-  destruct (dispatch_same (S (length (x_queue s))) s) as [A [B [C [D [E [F [F2 G]]]]]]]. cbn zeta in *.
-  constructor.
-  - intros id. pose proof (F id). pose proof (inv_le s I id). lia.
-  - intros id Hp. rewrite (obj_same _ _ _ B). apply I. pose proof (F id). pose proof (inv_le s I id). lia.
-  - intros h id. rewrite A, (obj_same _ _ _ B). intros Ht Hl.
-    rewrite F2; [now apply (inv_tracked s I h id)|]. unfold tracked_id. destruct (inv_hash s I h id Ht) as [-> _]. now rewrite Ht, N.eqb_refl.
-  - intros h id. rewrite A, C, (obj_same _ _ _ B). apply I.
-  - intros id Hn. rewrite C in Hn. rewrite B. destruct (inv_fresh s I id Hn) as [P0 O0]. split; [|exact O0].
-    pose proof (F id). lia.
-  - intros id. rewrite (obj_same _ _ _ B). apply I.
-  - rewrite A. apply I.
+  intros I Eq.
+  set (s' := {| x_table := x_table s; x_objs := x_objs s; x_queue := rest; x_inflight := x_inflight s ++ [id];
+                x_timers := x_timers s; x_next := x_next s; x_workers := x_workers s;
+                x_probes := x_probes s ++ [e_hash (obj s id)]; x_info := x_info s |}).
+  assert (Hp : forall id', pend s' id' = pend s id').
+  { intros id'. unfold pend, s'. cbn [x_queue x_inflight x_timers]. rewrite Eq, cnt_snoc, cnt_cons. destruct (N.eq_dec id id'); lia. }
+  assert (Ho : forall id', obj s' id' = obj s id') by (intros id'; reflexivity).
+  constructor; change (x_table s') with (x_table s); change (x_next s') with (x_next s).
+  - intros id'. rewrite Hp. apply I.
+  - intros id' H. rewrite Hp in H. rewrite Ho. apply (inv_live s I id' H).
+  - intros h id' Ht Hl. rewrite Hp. rewrite Ho in Hl. now apply (inv_tracked s I h id').
+  - intros h id' Ht. rewrite Ho. now apply (inv_hash s I h id').
+  - intros id' Hn. rewrite Hp. apply (inv_fresh s I id' Hn).
+  - intros id'. rewrite Ho. apply I.
+  - apply I.
 Qed.
+
+(* a worker takes the head of the queue and finds that it is no longer tracked: dropped *)
+Lemma inv_drop s id rest : Inv s -> x_queue s = id :: rest -> tracked_id s id = false ->
+  Inv {| x_table := x_table s; x_objs := x_objs s; x_queue := rest; x_inflight := x_inflight s;
+         x_timers := x_timers s; x_next := x_next s; x_workers := x_workers s; x_probes := x_probes s; x_info := x_info s |}.
+Proof.
+  intros I Eq Hut.
+  assert (Hp : forall id', pend {| x_table := x_table s; x_objs := x_objs s; x_queue := rest; x_inflight := x_inflight s;
+                                   x_timers := x_timers s; x_next := x_next s; x_workers := x_workers s; x_probes := x_probes s;
+                                   x_info := x_info s |} id' = (pend s id' - (if N.eq_dec id id' then 1 else 0))%nat).
+  { intros id'. unfold pend. cbn [x_queue x_inflight x_timers]. rewrite Eq, cnt_cons. destruct (N.eq_dec id id'); lia. }
+  assert (Hnt : forall h id', afind h (x_table s) = Some id' -> id' <> id).
+  { intros h id' Ht ->. unfold tracked_id in Hut. destruct (inv_hash s I h id Ht) as [Hh _]. rewrite Hh, Ht, N.eqb_refl in Hut. discriminate. }
+  constructor; cbn [x_table x_next x_objs].
+  - intros id'. rewrite Hp. pose proof (inv_le s I id'). lia.
+  - intros id' H. rewrite Hp in H. assert (Hs : pend s id' = 1%nat) by (pose proof (inv_le s I id'); destruct (N.eq_dec id id'); lia).
+    apply (inv_live s I id' Hs).
+  - intros h id' Ht Hl. rewrite Hp. pose proof (Hnt h id' Ht). destruct (N.eq_dec id id'); [congruence|].
+    rewrite Nat.sub_0_r. now apply (inv_tracked s I h id').
+  - apply I.
+  - intros id' Hn. destruct (inv_fresh s I id' Hn) as [P0 O0]. split; [rewrite Hp; lia|exact O0].
+  - apply I.
+  - apply I.
+Qed.
+
+(* a worker takes the head of the queue but there is no scrape info for its job: failed at once, retry armed *)
+Lemma inv_noinfo s id rest : Inv s -> x_queue s = id :: rest -> tracked_id s id = true ->
+  let e := obj s id in
+  Inv {| x_table := x_table s;
+         x_objs := aset id {| e_hash := e_hash e; e_job := e_job e; e_exploring := e_exploring e; e_health := Bad;
+                              e_series := e_series e; e_total := e_total e; e_err := true; e_window := e_window e |} (x_objs s);
+         x_queue := rest; x_inflight := x_inflight s; x_timers := x_timers s ++ [id];
+         x_next := x_next s; x_workers := x_workers s; x_probes := x_probes s; x_info := x_info s |}.
+Proof.
+  intros I Eq Htr e. set (e' := {| e_hash := e_hash e; e_job := e_job e; e_exploring := e_exploring e; e_health := Bad;
+                                   e_series := e_series e; e_total := e_total e; e_err := true; e_window := e_window e |}).
+  set (s' := {| x_table := x_table s; x_objs := aset id e' (x_objs s); x_queue := rest; x_inflight := x_inflight s;
+                x_timers := x_timers s ++ [id]; x_next := x_next s; x_workers := x_workers s; x_probes := x_probes s;
+                x_info := x_info s |}).
+  assert (Hp : forall id', pend s' id' = pend s id').
+  { intros id'. unfold pend, s'. cbn [x_queue x_inflight x_timers]. rewrite Eq, cnt_snoc, cnt_cons. destruct (N.eq_dec id id'); lia. }
+  assert (Ho : forall id', obj s' id' = if N.eq_dec id id' then e' else obj s id').
+  { intros id'. unfold obj, s'. cbn [x_objs]. destruct (N.eq_dec id id') as [<-|Hne]; [now rewrite afind_aset_eq|now rewrite afind_aset_neq]. }
+  assert (Hin : (0 < cnt id (x_queue s))%nat) by (rewrite Eq, cnt_cons; destruct (N.eq_dec id id); [lia|congruence]).
+  assert (Hp1 : pend s id = 1%nat) by (pose proof (inv_le s I id); unfold pend in *; lia).
+  pose proof (inv_live s I id Hp1) as Hlive. unfold live in Hlive. apply andb_true_iff in Hlive. destruct Hlive as [Hexp _].
+  fold e in Hexp.
+  assert (Hlt : (id < x_next s)%N).
+  { unfold tracked_id in Htr. destruct (afind (e_hash (obj s id)) (x_table s)) as [id2|] eqn:Et; [|discriminate].
+    apply N.eqb_eq in Htr. subst id2. apply (inv_hash s I _ id Et). }
+  constructor; change (x_table s') with (x_table s); change (x_next s') with (x_next s).
+  - intros id'. rewrite Hp. apply I.
+  - intros id' H. rewrite Hp in H. rewrite Ho. destruct (N.eq_dec id id') as [<-|]; [|now apply (inv_live s I id')].
+    unfold live, e'. cbn. now rewrite Hexp.
+  - intros h id' Ht Hl. rewrite Hp. rewrite Ho in Hl. destruct (N.eq_dec id id') as [<-|]; [exact Hp1|now apply (inv_tracked s I h id')].
+  - intros h id' Ht. rewrite Ho. destruct (inv_hash s I h id' Ht) as [Hh Hl]. split; [|exact Hl].
+    destruct (N.eq_dec id id') as [<-|]; [exact Hh|exact Hh].
+  - intros id' Hn. destruct (inv_fresh s I id' Hn) as [P0 O0]. split; [now rewrite Hp|].
+    unfold s'. cbn [x_objs]. rewrite afind_aset_neq; [exact O0|]. intros <-. lia.
+  - intros id'. rewrite Ho. destruct (N.eq_dec id id') as [<-|]; [|apply I]. unfold e'. cbn. intros He. congruence.
+  - apply I.
+Qed.
+
+Lemma inv_dispatch fuel : forall s, Inv s -> Inv (dispatch fuel s).
+Proof.
+  induction fuel as [|f IH]; intros s I; cbn [dispatch]; [exact I|].
+  destruct (x_queue s) as [|id rest] eqn:Eq; [exact I|].
+  destruct (Nat.ltb (length (x_inflight s)) (x_workers s)); [|exact I].
+  fold (tracked_id s id). destruct (tracked_id s id) eqn:Etr.
+  - destruct (existsb (N.eqb (e_job (obj s id))) (x_info s)).
+    + apply IH. now apply (inv_start s id rest I Eq).
+    + apply IH. now apply (inv_noinfo s id rest I Eq Etr).
+  - apply IH. now apply (inv_drop s id rest I Eq Etr).
+Qed.
+
+Lemma inv_settle s : Inv s -> Inv (settle s).
+Proof. intros I. unfold settle. now apply inv_dispatch. Qed.
 
 (* ---- set_obj ---- *)
 Lemma obj_set_eq s id e : obj (set_obj s id e) id = e.
@@ -127,13 +180,13 @@ Proof.
   assert (Hpend : forall id', pend {| x_table := x_table (set_obj s id e'); x_objs := x_objs (set_obj s id e');
                                       x_queue := x_queue (set_obj s id e') ++ [id]; x_inflight := x_inflight (set_obj s id e');
                                       x_timers := x_timers (set_obj s id e'); x_next := x_next (set_obj s id e');
-                                      x_workers := x_workers (set_obj s id e'); x_probes := x_probes (set_obj s id e') |} id'
+                                      x_workers := x_workers (set_obj s id e'); x_probes := x_probes (set_obj s id e'); x_info := x_info (set_obj s id e') |} id'
                               = (pend s id' + (if N.eq_dec id id' then 1 else 0))%nat).
   { intros id'. unfold pend. cbn [x_queue x_inflight x_timers set_obj]. rewrite cnt_snoc. lia. }
   assert (Hobj : forall id', obj {| x_table := x_table (set_obj s id e'); x_objs := x_objs (set_obj s id e');
                                     x_queue := x_queue (set_obj s id e') ++ [id]; x_inflight := x_inflight (set_obj s id e');
                                     x_timers := x_timers (set_obj s id e'); x_next := x_next (set_obj s id e');
-                                    x_workers := x_workers (set_obj s id e'); x_probes := x_probes (set_obj s id e') |} id'
+                                    x_workers := x_workers (set_obj s id e'); x_probes := x_probes (set_obj s id e'); x_info := x_info (set_obj s id e') |} id'
                              = if N.eq_dec id id' then e' else obj s id').
   { intros id'. destruct (N.eq_dec id id') as [<-|Hne].
     - apply (obj_set_eq s id e').
@@ -201,7 +254,7 @@ Lemma inv_update s jobs : Inv s -> Inv (do_update s jobs).
 Proof.
   intros I. unfold do_update.
   set (s00 := {| x_table := []; x_objs := x_objs s; x_queue := x_queue s; x_inflight := x_inflight s; x_timers := x_timers s;
-                 x_next := x_next s; x_workers := x_workers s; x_probes := x_probes s |}).
+                 x_next := x_next s; x_workers := x_workers s; x_probes := x_probes s; x_info := x_info s |}).
   set (pairs := flat_map (fun jl => map (fun h => (fst jl, h)) (snd jl)) jobs).
   assert (Hold : forall h id, afind h (x_table s) = Some id -> (id < x_next s)%N) by (intros h id H; apply (inv_hash s I h id H)).
   assert (U : UpdInv s (fold_left (update_visit (x_table s)) pairs s00)).
@@ -264,7 +317,7 @@ Proof.
   destruct Hinfl as [Hi [Hq Ht]].
   pose proof (inv_live s I id Hp1) as Hlive. unfold live in Hlive. apply andb_true_iff in Hlive. destruct Hlive as [Hexp Hng].
   unfold finish_probe. set (e := obj s id) in *.
-  match goal with |- Inv {| x_table := _; x_objs := _; x_queue := _; x_inflight := _; x_timers := ?tm; x_next := _; x_workers := _; x_probes := _ |} =>
+  match goal with |- Inv {| x_table := _; x_objs := _; x_queue := _; x_inflight := _; x_timers := ?tm; x_next := _; x_workers := _; x_probes := _; x_info := _ |} =>
     set (timers' := tm) end.
   match goal with |- context [set_obj s id ?ee] => set (e' := ee) in * end.
   assert (Hobj : forall id', obj (set_obj s id e') id' = if N.eq_dec id id' then e' else obj s id').
@@ -274,7 +327,7 @@ Proof.
   assert (Hpend : forall id', pend {| x_table := x_table (set_obj s id e'); x_objs := x_objs (set_obj s id e');
                                       x_queue := x_queue (set_obj s id e'); x_inflight := remove_first id (x_inflight (set_obj s id e'));
                                       x_timers := timers'; x_next := x_next (set_obj s id e');
-                                      x_workers := x_workers (set_obj s id e'); x_probes := x_probes (set_obj s id e') |} id'
+                                      x_workers := x_workers (set_obj s id e'); x_probes := x_probes (set_obj s id e'); x_info := x_info (set_obj s id e') |} id'
                               = if N.eq_dec id id' then (match r with PFail => 1 | POk _ _ => 0 end)%nat else pend s id').
   { intros id'. unfold pend. cbn [x_queue x_inflight x_timers set_obj]. rewrite cnt_remove_first. unfold timers'.
     destruct (N.eq_dec id id') as [<-|Hne].
@@ -310,7 +363,7 @@ Proof.
   set (tracked := match afind (e_hash (obj s id)) (x_table s) with Some id' => N.eqb id' id | None => false end).
   assert (Hpend : forall id', pend {| x_table := x_table s; x_objs := x_objs s; x_queue := if tracked then x_queue s ++ [id] else x_queue s;
                                       x_inflight := x_inflight s; x_timers := remove_first id (x_timers s); x_next := x_next s;
-                                      x_workers := x_workers s; x_probes := x_probes s |} id'
+                                      x_workers := x_workers s; x_probes := x_probes s; x_info := x_info s |} id'
                               = if N.eq_dec id id' then (if tracked then 1 else 0)%nat else pend s id').
   { intros id'. unfold pend. cbn [x_queue x_inflight x_timers]. rewrite cnt_remove_first.
     destruct tracked; rewrite ?cnt_snoc; destruct (N.eq_dec id id') as [<-|Hne]; try lia. }
@@ -338,6 +391,8 @@ Lemma inv_step s op : Inv s -> Inv (x_step s op).
 Proof.
   intros I. unfold x_step. apply inv_settle. destruct op.
   - now apply inv_get. - now apply inv_update. - now apply inv_apply. - now apply inv_done. - now apply inv_timers.
+  - (* the scrape manager was reloaded: nothing of the explorer's own state moves *)
+    destruct I as [a b c d e f g]. constructor; auto.
 Qed.
 
 Theorem inv_reachable w ops : Inv (x_run (x_init w) ops).
@@ -398,7 +453,7 @@ Proof.
   assert (Ho : forall st tm inf, obj {| x_table := x_table (set_obj s id st); x_objs := x_objs (set_obj s id st);
                                        x_queue := x_queue (set_obj s id st); x_inflight := inf; x_timers := tm;
                                        x_next := x_next (set_obj s id st); x_workers := x_workers (set_obj s id st);
-                                       x_probes := x_probes (set_obj s id st) |} id = st).
+                                       x_probes := x_probes (set_obj s id st); x_info := x_info (set_obj s id st) |} id = st).
   { intros st tm inf. unfold obj. cbn [x_objs set_obj]. now rewrite afind_aset_eq. }
   rewrite !Ho. cbn. auto.
 Qed.
@@ -411,7 +466,26 @@ Proof.
   assert (Ho : forall st tm inf, obj {| x_table := x_table (set_obj s id st); x_objs := x_objs (set_obj s id st);
                                        x_queue := x_queue (set_obj s id st); x_inflight := inf; x_timers := tm;
                                        x_next := x_next (set_obj s id st); x_workers := x_workers (set_obj s id st);
-                                       x_probes := x_probes (set_obj s id st) |} id = st).
+                                       x_probes := x_probes (set_obj s id st); x_info := x_info (set_obj s id st) |} id = st).
   { intros st tm inf. unfold obj. cbn [x_objs set_obj]. now rewrite afind_aset_eq. }
   rewrite !Ho. cbn [e_health e_err x_timers]. repeat split. apply in_or_app. right. now left.
+Qed.
+
+(* a probe attempt without scrape info for the job (the scrape manager has no client for it) is a failed probe: nothing
+   is sent to the target, the entry shows as unhealthy with an error, and its retry timer is armed *)
+Theorem noinfo_is_failed_probe s id rest :
+  x_queue s = id :: rest -> (length (x_inflight s) < x_workers s)%nat -> tracked_id s id = true ->
+  existsb (N.eqb (e_job (obj s id))) (x_info s) = false ->
+  let s' := dispatch 1 s in
+  e_health (obj s' id) = Bad /\ e_err (obj s' id) = true /\ In id (x_timers s') /\
+  x_probes s' = x_probes s /\ x_inflight s' = x_inflight s /\ x_queue s' = rest.
+Proof.
+  intros Eq Hw Htr Hni. cbn zeta. cbn [dispatch]. rewrite Eq.
+  assert (Hlt : Nat.ltb (length (x_inflight s)) (x_workers s) = true) by now apply Nat.ltb_lt.
+  rewrite Hlt. unfold tracked_id in Htr. rewrite Htr, Hni. cbn [dispatch].
+  match goal with |- context [obj ?S id] =>
+    match S with {| x_table := _; x_objs := aset id ?E _; x_queue := _; x_inflight := _; x_timers := _; x_next := _; x_workers := _; x_probes := _; x_info := _ |} =>
+      assert (Ho : obj S id = E) by (unfold obj; cbn [x_objs]; now rewrite afind_aset_eq) end end.
+  rewrite Ho. cbn [e_health e_err x_timers x_probes x_inflight x_queue].
+  split; [reflexivity|]. split; [reflexivity|]. split; [apply in_or_app; right; now left|]. auto.
 Qed.
